@@ -10,7 +10,19 @@ Completeness of the interception is checked per run by the caller: apply_effects
 from __future__ import annotations
 import builtins, io, os, shutil, errno
 
-LOG: list = []
+class _Log(list):
+    """The effect log. With raise_at = k the k-th effect is not performed: KeyboardInterrupt is raised in its place, once - the
+    process "dies" the way an interrupt or an I/O error kills it, with Python's cleanup handlers (finally, with) still running."""
+    raise_at = None
+
+    def append(self, x):
+        if self.raise_at is not None and len(self) == self.raise_at:
+            self.raise_at = None
+            raise KeyboardInterrupt("injected in place of effect %d" % len(self))
+        super().append(x)
+
+
+LOG = _Log()
 ROOT = None
 FAIL: dict = {}     # path -> exception instance to raise on open (fault injection for reads)
 _real_open = builtins.open
@@ -261,10 +273,16 @@ def apply_effects(model, effects, root):
     return {k: (None if ino is None else data.get(ino, b"")) for k, ino in paths.items()}
 
 
-def crash_states(pre, effects, root):
-    """yield (label, model) for every prefix of the log, every APPEND additionally cut at every byte."""
+def crash_states(pre, effects, root, cuts=True):
+    """yield (label, model) for every prefix of the log, every APPEND additionally cut at every byte (cuts=False: at 3 bytes)."""
     for i in range(len(effects) + 1):
         yield (f"after {i} of {len(effects)} effects", apply_effects(pre, effects[:i], root))
+        if i < len(effects) and effects[i][0] == "APPEND" and not cuts:
+            data = effects[i][2]
+            for k in sorted({1, len(data) // 2, len(data) - 1} - {0, len(data)}):
+                yield (f"effect {i} ({effects[i][0]}) cut at byte {k} of {len(data)}",
+                       apply_effects(pre, list(effects[:i]) + [("APPEND", effects[i][1], data[:k], effects[i][3])], root))
+            continue
         if i < len(effects) and effects[i][0] == "APPEND":
             data = effects[i][2]
             for k in range(1, len(data)):
